@@ -12,6 +12,7 @@ pub mod refmath;
 pub mod rng;
 
 pub use engine::{Args, CaseOut, Run, Sub, Tier};
+pub use serde_json;
 pub use serde_json::{json, Value};
 
 pub fn hex(bytes: &[u8]) -> String {
